@@ -586,7 +586,7 @@ func c13Check(c *harness.Ctx) {
 func init() {
 	harness.Register(&harness.Check{
 		Property: "C13", Level: "exploration", NeedsConc: true, QuickS: 200, ThoroughS: 1200,
-		Rule:   "complete grid of peer sets {P1, P1 with local address, P1 passive, P1+P2} x state of P1 at arrival {fresh, idle-wait, stalled connect, inbound OpenSent, inbound OpenConfirm, Established via inbound, Established via outbound, outbound OpenSent, outbound OpenConfirm, held down} x source {P1, P2, unconfigured, IPv6} x destination {P1's local address, another address, wildcard listener}: each cell one run of the real server over the virtual network (three listeners), judged against the admission predicate (OPEN received vs EOF with zero bytes, no callback, existing session still delivers a probe); plus all schedules within the delay bound (1 quick / 2 thorough) for the cells with the configured source; all cells non-trivial and distinct",
+		Rule:   "complete grid of peer sets {P1, P1 with local address, P1 passive, P1+P2} x state of P1 at arrival {fresh, idle-wait, stalled connect, inbound OpenSent, inbound OpenConfirm, Established via inbound, Established via outbound, outbound OpenSent, outbound OpenConfirm, held down} x source {P1, P2, unconfigured, IPv6} x destination {P1's local address, another address, wildcard listener}: each cell one run of the real server over the virtual network (three listeners), judged against the admission predicate (OPEN received vs EOF with zero bytes, no callback, existing session still delivers a probe); plus all schedules within the delay bound (1 quick / 2 thorough) for the cells with the configured source; plus a single wildcard listener with an earlier connection from an unconfigured source, bursts of 2-3 simultaneous connections, and a connection that arrives while the peer is being deleted (it must not stay open); all cells non-trivial and distinct",
 		Assume: []string{"virtual network with real net.TCPAddr endpoints (A3)", "default schedule for the grid"},
 		Run:    c13Check,
 		Replay: func(c *harness.Ctx, raw json.RawMessage) {
